@@ -48,6 +48,7 @@ type History struct {
 	NoSeccomp  bool   `json:"no_seccomp,omitempty"` // fault: seccomp(2) answers ENOSYS (an outer filter denies it)
 	Refusal    string `json:"refusal,omitempty"`    // with no_seccomp: the errno of the refusal, "" (ENOSYS) | "EPERM" | "EACCES" (a container profile rather than an old kernel)
 	NoNNP      bool   `json:"no_nnp,omitempty"`     // fault: prctl(PR_SET_NO_NEW_PRIVS) answers EINVAL (an outer filter denies it); privileged children only
+	FlagGuard  bool   `json:"flag_guard,omitempty"` // an outer filter (privileged children) answers EXDEV to seccomp(SET_MODE_FILTER) with a flag word that no load of this history asks for
 	Procs      int    `json:"procs,omitempty"`      // GOMAXPROCS of the child (default 4); 1 = a single P while other OS threads exist
 	Ops        []Op   `json:"ops"`
 }
@@ -208,6 +209,34 @@ func child(h History) {
 		prog := syscall.SockFprog{Len: uint16(len(outer)), Filter: &outer[0]}
 		if _, _, e := syscall.RawSyscall(317, 1, 1, uintptr(unsafe.Pointer(&prog))); e != 0 {
 			fmt.Println(`{"fatal":"outer filter (nnp)"}`)
+			return
+		}
+		runtime.UnlockOSThread()
+	}
+	if h.FlagGuard {
+		// observer of the flag word that really reaches the kernel: installed with CAP_SYS_ADMIN (so without the
+		// bit) before any other thread exists; transparent as long as the loader hands over Filter.Flag unmodified
+		runtime.LockOSThread()
+		var words []uint32
+		for _, op := range h.Ops {
+			dup := false
+			for _, w := range words {
+				dup = dup || w == op.Flags
+			}
+			if !dup && op.Op != "supported" && op.Op != "setnnp" {
+				words = append(words, op.Flags)
+			}
+		}
+		n := len(words)
+		outer := []syscall.SockFilter{{Code: 0x20, K: 0}, {Code: 0x15, Jt: 0, Jf: uint8(4 + n), K: 317},
+			{Code: 0x20, K: 16}, {Code: 0x15, Jt: 0, Jf: uint8(2 + n), K: 1}, {Code: 0x20, K: 24}}
+		for i, w := range words {
+			outer = append(outer, syscall.SockFilter{Code: 0x15, Jt: uint8(n - i), Jf: 0, K: w})
+		}
+		outer = append(outer, syscall.SockFilter{Code: 0x06, K: 0x00050000 | 18}, syscall.SockFilter{Code: 0x06, K: 0x7fff0000})
+		prog := syscall.SockFprog{Len: uint16(len(outer)), Filter: &outer[0]}
+		if _, _, e := syscall.RawSyscall(317, 1, 1, uintptr(unsafe.Pointer(&prog))); e != 0 {
+			fmt.Println(`{"fatal":"outer filter (flag guard)"}`)
 			return
 		}
 		runtime.UnlockOSThread()
@@ -551,6 +580,9 @@ func genHistory(r *rand.Rand, profile string) History {
 		// only a privileged process can install the outer filter without setting the bit itself
 		h.NoNNP, h.Privileged = true, true
 	}
+	if (profile == "load" || profile == "tsync") && h.Privileged && !h.NoSeccomp && !h.NoNNP && r.Intn(3) == 0 {
+		h.FlagGuard = true
+	}
 	listener := false
 	for i := 0; i < nops; i++ {
 		op := Op{Op: "load", Thread: r.Intn(h.Threads), NNP: r.Intn(2) == 0, Flags: flagsPool[r.Intn(4)], Policy: "valid"}
@@ -640,7 +672,9 @@ func compare(h History, obs []Obs, model string) (ok bool, note string, failing 
 			if o.Result == "nil" && f[0] != "nil" {
 				fail = where + ": LoadFilter returned nil although the abstract kernel declines the attach (" + f[0] + ")"
 			}
-			if o.Result != "nil" && f[0] == "nil" {
+			if h.FlagGuard && o.Result == "errno:18" {
+				fail = where + ": the flag word that reached the kernel is not Filter.Flag (an outer filter of this history answers EXDEV to seccomp(SET_MODE_FILTER) with any flag word that none of its loads asks for)"
+			} else if o.Result != "nil" && f[0] == "nil" {
 				fail = where + ": LoadFilter failed with " + o.Result + " although the load must succeed"
 				if len(o.HookTids) == 2 && o.HookTids[0] != o.HookTids[1] {
 					fail += fmt.Sprintf("; the goroutine moved from thread %d to thread %d between prctl and seccomp", o.HookTids[0], o.HookTids[1])
@@ -649,7 +683,7 @@ func compare(h History, obs []Obs, model string) (ok bool, note string, failing 
 			return false, where + ": result " + o.Result + ", model " + f[0], fail
 		}
 		base := 0
-		if h.NoSeccomp || h.NoNNP {
+		if h.NoSeccomp || h.NoNNP || h.FlagGuard {
 			base = 1 // the outer filter
 		}
 		for t := 0; t < h.Threads; t++ {
@@ -792,7 +826,7 @@ func main() {
 	}
 	start := time.Now()
 	sum := &Summary{Stream: "kernel", Profile: *profile, Seed: *seed, Distribution: map[string]int{}, Samples: []string{}, Mismatches: []Mismatch{},
-		Rule: "seeded histories of LoadFilter/Supported calls (pinned threads, privileged/unprivileged, flags {0,tsync,log,tsync|log,unknown bits}, valid/invalid/oversize policies, unpinned loads with forced migration attempts, up to 63 extra threads in different states), each run in a fresh child process on the host kernel; a history is non-trivial if it contains at least one load that reaches the kernel; distinct by history JSON"}
+		Rule: "seeded histories of LoadFilter/Supported calls (pinned threads, privileged/unprivileged, flags {0,tsync,log,tsync|log,unknown bits, new_listener alone/with log/with tsync}; faults: seccomp(2) refused with ENOSYS/EPERM/EACCES, prctl refused; GOMAXPROCS 1 or 4, valid/invalid/oversize policies, unpinned loads with forced migration attempts, up to 63 extra threads in different states), each run in a fresh child process on the host kernel; a history is non-trivial if it contains at least one load that reaches the kernel; distinct by history JSON"}
 	for _, k := range []string{"valid", "oversize"} {
 		lens[k] = policyLen(k)
 	}
@@ -878,6 +912,9 @@ func main() {
 		sum.Distribution[fmt.Sprintf("threads:%d+%d", h.Threads, h.Extra)]++
 		if h.Procs > 0 {
 			sum.Distribution[fmt.Sprintf("gomaxprocs:%d", h.Procs)]++
+		}
+		if h.FlagGuard {
+			sum.Distribution["observer:flag-word-guard"]++
 		}
 		if h.NoSeccomp && h.Refusal != "" {
 			sum.Distribution["fault:seccomp-"+h.Refusal]++
